@@ -40,3 +40,11 @@ def check(name, ok, detail=""):
     """a structural (non-SMT) obligation decided by inspecting the AST / contracts"""
     return {"name": name, "verdict": "unsat" if ok else "sat", "backend": "engine(structural)", "ms": 0, "kind": "lemma",
             "detail": detail, "model": None, "path": [], "known_ids": []}
+
+
+def binds(name, ok, detail=""):
+    """a *binding* check: the lemma above was proved about expressions read from the AST; if the source no longer has that
+    shape the lemma no longer speaks about the code: undecided (exit 2), never a violation (DESIGN 4.1)"""
+    return {"name": name, "verdict": "unsat" if ok else "unknown", "backend": "engine(source binding)", "ms": 0, "kind": "lemma",
+            "detail": detail + ("" if ok else " -- the source no longer has the shape this lemma was stated for"), "model": None,
+            "path": [], "known_ids": []}
